@@ -74,12 +74,13 @@ def make(cls):
         est = 2.5 if k == 'float' else np.array([2.5])
         return DistEdge([3, 5], mkinfo(1), est, vs)
     if cat == 'graph':
-        vs = [Vertex(1, mkpose(k)), Vertex(2, mkpose(k, 1.0)), Vertex(9, mkpose(k, 2.0))]
-        vs[2].pose[:B.DIM[k]] *= 5000.0          # one far-away vertex: a comparison relative to the WHOLE graph would hide differences of the others
+        # (a landmark vertex sits BETWEEN the poses in the list; no edge names it or vertex 9)
+        vs = [Vertex(1, mkpose(k)), Vertex(12, mkpose(point_kind(k), 3.0)), Vertex(2, mkpose(k, 1.0)), Vertex(9, mkpose(k, 2.0))]
+        vs[3].pose[:B.DIM[k]] *= 5000.0          # one far-away vertex: a comparison relative to the WHOLE graph would hide differences of the others
         # a nearly consistent graph (residuals ~1e-3): its chi^2 reacts strongly to perturbations far below the tolerance
         small = np.full(B.CDIM[k], 1e-3)
-        z12 = (vs[1].pose - vs[0].pose) + small
-        z21 = (vs[0].pose - vs[1].pose) + small
+        z12 = (vs[2].pose - vs[0].pose) + small
+        z21 = (vs[0].pose - vs[2].pose) + small
         es = [EdgeOdometry([1, 2], mkinfo(B.CDIM[k]), z12), EdgeOdometry([2, 1], mkinfo(B.CDIM[k]) * 3.0, z21)]
         return Graph(es, vs)
     raise ValueError(cls)
@@ -91,7 +92,7 @@ def part_array(obj, cat, part):
     if cat == 'vertex':
         return obj.pose
     if cat == 'graph':
-        return {'vpose': obj._vertices[1].pose, 'einfo': obj._edges[1].information, 'eest': obj._edges[0].estimate}[part]
+        return {'vpose': obj._vertices[2].pose, 'einfo': obj._edges[1].information, 'eest': obj._edges[0].estimate}[part]
     return {'info': obj.information, 'est': obj.estimate, 'off': getattr(obj, 'offset', None)}[part]
 
 
@@ -132,6 +133,10 @@ def mutate(cls, m):
     if cat in ('odo', 'lm', 'custom'):
         if mut == 'vid':
             y.vertex_ids = [3, 6]
+        elif mut == 'shortvids':
+            # an edge of the same n-ary class naming a PREFIX of the ids (and bound to that vertex only)
+            y.vertex_ids = [3]
+            y.vertices = y.vertices[:1]
         elif mut == 'swapvids':
             y.vertex_ids = [5, 3]
         elif mut == 'estkind':
@@ -160,23 +165,26 @@ def mutate(cls, m):
         if mut == 'dropedge':
             return Graph(es[:1], vs)
         if mut == 'dropvertex':
-            return Graph(es, vs[:2])
+            return Graph(es, vs[:3])
         if mut == 'addvertex':
             return Graph(es, vs + [Vertex(11, mkpose(k))])
         if mut == 'swapvertices':
-            return Graph(es, [vs[1], vs[0], vs[2]])
+            return Graph(es, [vs[2], vs[1], vs[0], vs[3]])
+        if mut == 'movelandmark':
+            byid = {v.id: v for v in vs}
+            return Graph(es, [byid[1], byid[2], byid[12], byid[9]])          # (x lists 1, 12, 2, 9) only the place of the landmark among the poses differs
         if mut == 'swapedges':
             return Graph([es[1], es[0]], vs)
         if mut == 'vid':
-            vs[2].id = 10
+            vs[3].id = 10
             return y
         if mut == 'vkind':
-            vs[2].pose = mkpose(other_kind(k), 2.0)
+            vs[3].pose = mkpose(other_kind(k), 2.0)
             return Graph(es, vs)
         if mut == 'eclass':
             k2 = point_kind(k)
-            if B.KIND_OF[type(vs[2].pose)] != k2:
-                vs[2].pose = mkpose(k2, 2.0)
+            if B.KIND_OF[type(vs[3].pose)] != k2:
+                vs[3].pose = mkpose(k2, 2.0)
                 x_needs = True
             e = EdgeLandmark([1, 9], mkinfo(B.CDIM[k2]), mkpose(k2, 0.5), mkpose(k, 0.25), offset_id=0)
             return Graph([es[0], e], vs)
